@@ -82,3 +82,10 @@ CONTRACTS["mingus.extra.tunings.fingers_needed"] = dict(
     split=[{"param_types": {"fingering": "[" + ",".join(["int"] * k) + "]"}} for k in range(1, 6)],
     split_is_domain=True, properties=["C20"], battery="fingerings",
     notes="domain: fingerings of 1..5 strings with arbitrary frets 0..24 (at least one pressed)")
+
+CONTRACTS[M + "count_courses"] = dict(
+    params={"self": "StringTuning"}, returns="real", modifies=[],
+    ensures=[("strings-of-all-courses-over-the-number-of-courses",
+              "feq(result * len(self.tuning), sum([(len(t) if is_list(t) else 1) for t in self.tuning]))")],
+    split=[{"field_types": {"self.tuning": sh}} for sh in SHAPES], split_is_domain=True,
+    properties=["C20"], battery="tuning_only")
